@@ -42,7 +42,7 @@ def task_options(t, H, wide=True, lo=None, hi=None):
 
 
 def selection_options(sel, wide=True):
-    ws = sel["workers"]
+    ws = list(dict.fromkeys(sel["workers"]))      # a worker listed twice is one candidate
     out = []
     for k in range(0, len(ws) + 1):
         for sub in itertools.combinations(ws, k):
@@ -63,7 +63,8 @@ def dynamic_options(s, e, wide=True):
     return out
 
 
-def enumerate_candidates(spec, wide=True, limit=None, task_lo=None, task_hi=None, rng=None, dyn_wide=True):
+def enumerate_candidates(spec, wide=True, limit=None, task_lo=None, task_hi=None, rng=None, dyn_wide=True,
+                         sel_wide=None):
     """yield candidate dicts over the grid of the Spec (product space).  With
     `limit`, a uniform sample of about that size is drawn using rng."""
     H = spec["problem"].get("horizon")
@@ -73,7 +74,9 @@ def enumerate_candidates(spec, wide=True, limit=None, task_lo=None, task_hi=None
     per_task = [task_options(t, H, wide, task_lo, task_hi) for t in spec["tasks"]]
     sel_reqs = [r for r in spec.get("requirements", []) if rs.selection_spec(spec, r["resource"])]
     dyn_reqs = [r for r in spec.get("requirements", []) if r.get("dynamic")]
-    sel_opts = [selection_options(rs.selection_spec(spec, r["resource"]), wide) for r in sel_reqs]
+    # sel_wide: every subset of a selection's workers (wrong counts included) even on a narrow timing grid
+    sel_opts = [selection_options(rs.selection_spec(spec, r["resource"]), wide if sel_wide is None else sel_wide)
+                for r in sel_reqs]
     total = 1
     for o in per_task + sel_opts:
         total *= len(o)
